@@ -1,8 +1,97 @@
 import Oracle.Util
-/-! Oracle handlers for C15 (model functions exposed on the line protocol). -/
-namespace Oracle
-open Mobius
+import MobiusModel.Accounts
+/-!
+  Oracle handlers for C15.  `c15run` executes a whole history on the Accounts model
+  (`Mobius.Accounts.step`, the definitions the theorems are about) and prints one observation
+  per operation.  Environment: `hash` = identity on the password bytes as sent, `verify` = equality,
+  so the printed "hash" of an account is the byte string the real server must accept at login.
 
-def c15Handlers : List (String × Handler) := []
+  c15run <nameMax> <tokens…>
+    A <login> <name> <pw> <access>      initial account (before the first operation)
+    N|S|D|G <k> (<ty> <hex>)*k          new-user / set-user / delete-user / get-user with k fields
+    U <r> (<k> (<ty> <hex>)*k)*r        update-user with r sub-records
+    L                                   list-users
+    I <login> <pw>                      login attempt (password bytes as sent)
+    R                                   restart (memory := load(disk))
+    X                                   dump (memory, disk, load(disk))
+  answer: observations joined by " | ".
+-/
+namespace Oracle
+open Mobius Mobius.Accounts
+
+def envO (nameMax : Nat) : Env Bytes := ⟨id, fun h q => h == q, nameMax⟩
+
+def acctStr (a : Account Bytes) : String := s!"{toHex a.login}:{toHex a.name}:{toHex a.access}:{toHex a.hash}"
+
+def acctRecHex (env : Env Bytes) (a : Account Bytes) : String :=
+  toHex (AccountRec.encode ⟨a.name, a.login, a.access, !env.verify a.hash []⟩)
+
+def outStr (env : Env Bytes) : Out Bytes → String
+  | .done => "done"
+  | .errReply => "err"
+  | .silent => "silent"
+  | .panic => "panic"
+  | .user n l h a => s!"user {toHex n} {toHex l} {toHex a} {toHex h}"
+  | .users l => s!"users {l.length}" ++ String.join (l.map fun a => " " ++ acctRecHex env a)
+  | .auth ok => if ok then "auth 1" else "auth 0"
+
+def dumpStr (st : State Bytes) : String :=
+  let m := st.mem.toList.map fun e => toHex e.1 ++ "=" ++ acctStr e.2
+  let d := st.disk.toList.map fun e => toHex e.1 ++ "=" ++ acctStr e.2
+  let r := (load st.disk).toList.map fun e => toHex e.1 ++ "=" ++ acctStr e.2
+  "dump mem " ++ ",".intercalate m ++ " disk " ++ ",".intercalate d ++ " load " ++ ",".intercalate r
+
+def takeFields : Nat → List String → List Field × List String
+  | 0, ts => ([], ts)
+  | n + 1, ty :: d :: rest =>
+    let (fs, r) := takeFields n rest
+    (⟨num ty, hexb d⟩ :: fs, r)
+  | _ + 1, _ => ([], [])
+
+def takeRecs : Nat → List String → List (List Field) × List String
+  | 0, ts => ([], ts)
+  | n + 1, k :: rest =>
+    let (fs, r) := takeFields (num k) rest
+    let (recs, r') := takeRecs n r
+    (fs :: recs, r')
+  | _ + 1, [] => ([], [])
+
+partial def c15Loop (env : Env Bytes) (st : State Bytes) (acc : List String) : List String → List String
+  | [] => acc.reverse
+  | "A" :: l :: n :: p :: a :: rest =>
+    let ac : Account Bytes := ⟨hexb l, hexb n, hexb p, hexb a⟩
+    c15Loop env ⟨st.mem.set ac.login ac, st.disk.set (ac.login ++ yamlExt) ac⟩ acc rest
+  | "L" :: rest => let r := step env st .listUsers; c15Loop env r.1 (outStr env r.2 :: acc) rest
+  | "R" :: rest => let r := step env st .restart; c15Loop env r.1 (outStr env r.2 :: acc) rest
+  | "X" :: rest => c15Loop env st (dumpStr st :: acc) rest
+  | "I" :: l :: p :: rest =>
+    let r := step env st (.login (hexb l) (hexb p)); c15Loop env r.1 (outStr env r.2 :: acc) rest
+  | "U" :: r :: rest =>
+    let (recs, rest') := takeRecs (num r) rest
+    let x := step env st (.updateUser recs); c15Loop env x.1 (outStr env x.2 :: acc) rest'
+  | op :: k :: rest =>
+    let (fs, rest') := takeFields (num k) rest
+    let o : Option Op := match op with
+      | "N" => some (.newUser fs)
+      | "S" => some (.setUser fs)
+      | "D" => some (.deleteUser fs)
+      | "G" => some (.getUser fs)
+      | _ => none
+    match o with
+    | some o => let x := step env st o; c15Loop env x.1 (outStr env x.2 :: acc) rest'
+    | none => (("bad-token " ++ op) :: acc).reverse
+  | t :: _ => (("bad-token " ++ t) :: acc).reverse
+
+def c15Handlers : List (String × Handler) := [
+  ("c15run", fun (a : List String) => match a with
+    | nm :: rest => " | ".intercalate (c15Loop (envO (num nm)) ⟨AMap.empty, AMap.empty⟩ [] rest)
+    | _ => "bad-op"),
+  ("c15legal", fun (a : List String) => match a with
+    | [l] => toString (decide (LegalLogin (hexb l)))
+    | _ => "bad-op"),
+  ("c15file", fun (a : List String) => match a with
+    | [l] => toHex (fileC (hexb l)) ++ " " ++ toHex (fileU (hexb l))
+    | _ => "bad-op")
+]
 
 end Oracle
